@@ -15,6 +15,9 @@ requests
 * `cksum <dia> <sia> <dsthex> <srchex> <proto> <a1><a2><a3> <msghex>` → digest model and spec value
   model grammar: `tc flow nh dia sia dst src path payload` (see `showPacket`)
 * `const <name>`           → `<n>` (a generated constant, for the translator sanity check)
+* `setters`                → `View::fn:safe|exempt|unsafe:start:stop …` every setter of Generated/Setters.lean
+* `mutfns`                 → `View::fn:safe|unsafe:modelled|unmodelled …` every other `&mut self` function
+* `saferanges <kind> <hex>` → `start-stop …` = Access.safeSetterRanges of the view bytes
 -/
 open ScionVerif ScionVerif.Layout ScionVerif.Access ScionVerif.Generated.Layout ScionVerif.Packet Driver
 
@@ -248,7 +251,10 @@ def refShow (kind : String) (b : Bytes) : String :=
     let l := RefDecode.l4 b h
     let pay :=
       if kind == "udp" then s!"udp:{l.udpSrc}:{l.udpDst}:{toHex (l.payload.drop 8)}"
-      else if kind == "scmp" then s!"scmphdr:{l.scmpType}:{l.scmpCode}:{toHex (l.payload.drop 4)}"
+      else if kind == "scmp" then
+        let m := RefDecode.scmp l.payload
+        let vs := if m.vals.isEmpty then "-" else String.intercalate "," (m.vals.map toString)
+        s!"scmp:{m.typ}:{m.code}:{vs}:z{m.zero}:{toHex m.data}"
       else s!"raw:{toHex l.payload}"
     s!"ok v={h.version} hl={h.hdrLenBytes} pl={h.payloadLen} rsv={h.rsv} ulen={l.udpLen} ucs={l.udpChecksum} scs={l.scmpChecksum} " ++
     s!"{h.trafficClass} {h.flowId} {h.nextHdr} {h.dstIsd * 2 ^ 48 + h.dstAs} {h.srcIsd * 2 ^ 48 + h.srcAs} " ++
@@ -296,6 +302,19 @@ def step (st : Unit) : List String → Unit × String
       let sp := Checksum.specChecksum (Checksum.pseudoHeader dia sia dh sh proto msg.length ++ msg)
       (st, s!"{match m with | some v => toString v | none => "overflow"} {sp}")
     | _, _, _, _, _, _ => (st, "bad-op")
+  | ["setters"] =>
+    (st, String.intercalate " " (ScionVerif.Generated.Setters.setters.map (fun r =>
+      let cls := if !r.safe then "unsafe" else if exemptSetters.contains (r.view, r.name) then "exempt" else "safe"
+      s!"{r.view}::{r.name}:{cls}:{r.range.start}:{r.range.stop}")))
+  | ["mutfns"] =>
+    (st, String.intercalate " " (ScionVerif.Generated.Setters.mutFns.map (fun r =>
+      s!"{r.view}::{r.name}:{if r.safe then "safe" else "unsafe"}:{if modelledMutFns.contains (r.view, r.name) then "modelled" else "unmodelled"}")))
+  | ["saferanges", k, hx] =>
+    match kindOf k, parseHex hx with
+    | some kind, some bs =>
+      let l := (safeSetterRanges kind bs).map (fun r => s!"{r.start}-{r.stop}")
+      (st, if l.isEmpty then "-" else String.intercalate " " l)
+    | _, _ => (st, "bad-op")
   | ["const", n] =>
     match constOf n with
     | some v => (st, toString v)
